@@ -367,7 +367,15 @@ std::string hx_run(const std::string &op, std::string &oracle)
             if (!vo.ok && oracle == "ok")
                 oracle = std::string("FAIL:cse_agree:output ") + std::to_string(k) + " with cse=" + (cur.cse ? "0 " : "1 ") + vo.why
                          + " while cse=" + (cur.cse ? "1" : "0") + " gives " + tostr(res[k]);
-            // eval_double of the substituted expression
+            // eval_double of the substituted expression.  Skipped for trees containing ACot: substitution re-runs the
+            // constructor acot(), whose exact special values (acot(-1) = 3*pi/4, inverse_lookup = pi/2 - atan) use the
+            // branch (0, pi) while every numeric evaluator computes atan(1/x) in (-pi/2, pi/2] (finding D27, not C13).
+            std::map<std::string, long> kk;
+            count_kinds(*cur.outs[k], kk);
+            if (kk.count("ACot")) {
+                stat("eval_double_subs_skipped_acot_branch");
+                continue;
+            }
             try {
                 map_basic_basic sub;
                 for (size_t j = 0; j < cur.ins.size(); j++)
